@@ -261,8 +261,13 @@ def run(prog, rep, tier, repo):
         key = 'triangular:%s' % name
         okl = loops == ['loop %si0 in 0..N' % ('rev ' if rev else '')]
         okr = len(st) == 1 and want_row in st[0]
-        (rep.ok if okl and okr else rep.viol)('triangular', key, '%s reads %s in a %s sweep' % (name, want_row, 'descending' if rev else 'ascending') if okl and okr
-                                              else '%s: loops %s, statement %s' % (name, loops, [s[:160] for s in st]), site_of(f.body))
+        if okl and okr:
+            rep.ok('triangular', key, '%s reads %s in a %s sweep' % (name, want_row, 'descending' if rev else 'ascending'))
+        elif not st or not any(l.startswith('loop %si0 in ' % ('rev ' if rev else '')) or l.startswith('loop i0 in ') or l.startswith('loop rev i0 in ') for l in loops):
+            # no counting sweep over the rows with an element store into X: an idiom this rule does not read
+            rep.undecided('triangular', key, '%s: sweep idiom not read (loops %s)' % (name, [l[:60] for l in loops]), site_of(f.body), proof=False)
+        else:
+            rep.viol('triangular', key, '%s: loops %s, statement %s' % (name, loops, [s[:160] for s in st]), site_of(f.body))
         # D5: reads of X
         key = 'uninit-read:%s' % name
         import re
@@ -365,8 +370,63 @@ def run(prog, rep, tier, repo):
     check_tolerances(prog, rep, 'symmetry-tolerance', [M + '::is_positive_definite', U + 'is_symmetric'])
     rep.floor('symmetry-tolerance', 2, 'Matrix::is_symmetric, is_symmetric')
 
+    # ------------------------------------------------------------------ D8b the pivot vector is applied as a gather
+    # lu() records in pivots[i] the original index of the row that ends up in position i (pivots.swap(p, j) alongside the row swap), so
+    # P.b is x[i] = b[pivots[i]].  The scatter x[pivots[i]] = b[i] applies the inverse permutation: equal for involutions (single or
+    # disjoint swaps), wrong as soon as the permutation has a cycle of length >= 3.
+    for k in (D + 'lu::lu_solve', '<%s as linalg::array::matrix::Solve<%s>>::lu_solve' % (M, V)):
+        f = prog.func(k)
+        key = 'perm-apply:%s' % k
+        if f is None:
+            rep.viol('perm-apply', key, 'function disappeared')
+            continue
+        rep.touch(k)
+        piv = ('arg', 2, f.names.get(2)) if k.startswith(D) else ('arg', 2, f.names.get(2))
+        verdict = None
+
+        def over_piv(it):
+            while tag(it) == 'call' and short(it[1]) in ('iter', 'into_iter', 'enumerate', 'copied', 'cloned', 'deref') and it[2]:
+                it = it[2][0]
+            return it == piv
+
+        def reads_piv(t):
+            for z in subterms(t):
+                if tag(z) == 'index' and z[1] == piv:
+                    return True
+                # the value component of `for (i, &p) in pivots.iter().enumerate()` / `for &p in pivots`
+                if tag(z) == 'field' and z[2] == 1 and tag(z[1]) == 'item' and over_piv(z[1][2]):
+                    return True
+                if tag(z) == 'item' and over_piv(z[2]) and not (tag(z[2]) == 'call' and short(z[2][1]) == 'enumerate'):
+                    return True
+            return False
+        for st_ in f.stores():
+            if tag(st_.target) != 'index':
+                continue
+            tv = st_.value
+            while tag(tv) == 'cast':
+                tv = tv[2]
+            if tag(tv) == 'index' and reads_piv(tv[2]) and not reads_piv(st_.target[2]):
+                verdict = True if verdict is None else verdict
+            elif reads_piv(st_.target[2]) and tag(tv) == 'index' and not reads_piv(tv[2]):
+                verdict = False
+        # iterator form: pivots.iter().map(|&p| b[p]).collect()
+        if verdict is None:
+            for b_ in pdb.closures_of(k):
+                g = prog.func(b_.key)
+                for r in g.return_values():
+                    if tag(r) == 'index' and any(tag(z) == 'arg' and z[1] == 2 for z in subterms(r[2])):
+                        verdict = True
+        if verdict is True:
+            rep.ok('perm-apply', key, 'the right-hand side is permuted by gathering b[pivots[i]] into position i')
+        elif verdict is False:
+            rep.viol('perm-apply', key, 'the right-hand side is permuted by scattering b[i] into position pivots[i]: that is the inverse permutation, which differs '
+                     'from P as soon as the pivot vector has a cycle of length >= 3 (e.g. pivots [2,0,1] for [[1,2,3],[4,5,6],[7,8,10]])', site_of(f.body))
+        else:
+            rep.undecided('perm-apply', key, 'application of the pivot vector not recognised', site_of(f.body), proof=False)
+    rep.floor('perm-apply', 2, 'slice and Matrix lu_solve')
+
     # ------------------------------------------------------------------ D9 scale consistency of every data-dependent branch
     from ..tol import check_scale_guards
-    check_scale_guards(prog, rep, 'scale-guard', [D + 'lu::lu', M + '::lu', D + 'cholesky::try_cholesky', M + '::cholesky'])
+    check_scale_guards(prog, rep, 'scale-guard', [D + 'lu::lu', M + '::lu', D + 'cholesky::try_cholesky', M + '::cholesky'], follow_helpers=True, values=True)
     rep.floor('scale-guard', 6, 'pivot search + pivot test in lu x2, pivot sign test in cholesky x2')
     return {}
